@@ -222,20 +222,25 @@ Section WithData.
         split; [apply In_keys_has; exact Hi|exact He].
   Qed.
 
+  (* the code's local_name (get_local_name(..) or friendly_name or "") is the name the RequestedAttribute
+     declares: what Name + NameFormat stand for, the FriendlyName only when the maps do not know the Name *)
   Lemma local_name_cases d : local_name d = "" \/ In (local_name d) (designators d).
   Proof.
-    unfold local_name, designators.
+    unfold local_name, designators, resolved.
     destruct (tr (ra_loc_l d)) as [l|] eqn:E1.
-    - apply tr_some in E1 as [E1 _]. rewrite E1. right. cbn. left; reflexivity.
+    - right. left; reflexivity.
     - destruct (tr (ra_friendly d)) as [f|] eqn:E2; [|left; reflexivity].
-      apply tr_some in E2 as [E2 _]. rewrite E2. right. apply in_or_app; right. cbn. left; reflexivity.
+      apply tr_some in E2 as [E2 _]. rewrite E2. right. cbn. left; reflexivity.
+  Qed.
+
+  Lemma name_in_designators d : In (ra_name d) (designators d).
+  Proof.
+    unfold designators. destruct (resolved d) as [l|]; [right; left; reflexivity|].
+    apply in_or_app; right. left; reflexivity.
   Qed.
 
   Lemma name_designates d : designates d (ra_name d).
-  Proof.
-    exists (ra_name d). split; [|reflexivity]. unfold designators.
-    apply in_or_app; right. apply in_or_app; right. left; reflexivity.
-  Qed.
+  Proof. exists (ra_name d). split; [apply name_in_designators|reflexivity]. Qed.
 
   Lemma match_attr_name_sound d a fn :
     match_attr_name d a = Some fn -> fn <> "" /\ has fn a = true /\ designates d fn.
@@ -248,7 +253,7 @@ Section WithData.
       + exists (local_name d). split; [exact Hi|symmetry; exact Hl].
     - apply match_sound in H as [Hh Hl]. split; [exact Hh|].
       exists (ra_name d). split.
-      + unfold designators. apply in_or_app; right. apply in_or_app; right. left; reflexivity.
+      + apply name_in_designators.
       + rewrite Hl, lower_idem. reflexivity.
   Qed.
 
@@ -421,18 +426,15 @@ Section WithData.
   Lemma eff_fail_flag x : eff_fail (f_fo x) (the_section x) = fail_flag x.
   Proof. reflexivity. Qed.
 
-  Lemma req_names_ok ds rn : req_names ds = Ok rn ->
-    rn = flat_map (fun d => match tr (ra_friendly d) with
-                            | Some f => [lower f]
-                            | None => match ra_loc_r d with Some l => [lower l] | None => [] end
-                            end) ds.
+  (* Policy.get_entity_categories reads the label FIRST (finding C10-F5): Spec.label_first_names *)
+  Lemma req_names_ok ds rn : req_names ds = Ok rn -> rn = flat_map label_first_name ds.
   Proof.
     revert rn. induction ds as [|d r IH]; intros rn; cbn [req_names flat_map].
     - intros H; inversion H; reflexivity.
     - destruct (req_name d) as [n| |] eqn:En; try discriminate.
       destruct (req_names r) as [ns| |] eqn:Er; try discriminate.
       intros H; inversion H; subst rn. rewrite <- (IH ns eq_refl).
-      unfold req_name in En. destruct (tr (ra_friendly d)) as [f|].
+      unfold req_name in En. unfold label_first_name. destruct (tr (ra_friendly d)) as [f|].
       + inversion En; reflexivity.
       + destruct (ra_nf d); [|discriminate]. destruct (ra_loc_r d) as [l|]; [|discriminate].
         inversion En; reflexivity.
@@ -473,6 +475,25 @@ Section WithData.
         congruence.
   Qed.
 
+  (* outside the class of finding C10-F5: every category entry in force either ignores the required
+     attributes or the label-first reading of their names is the declared one *)
+  Definition names_agree (x : finput) : Prop :=
+    forall e, In e (the_entries ectab x) ->
+      ec_only_required e = false \/ label_first_names x = required_names x.
+
+  Lemma entry_attrs_rn rn1 rn2 ecs e :
+    ec_only_required e = false -> entry_attrs rn1 ecs e = entry_attrs rn2 ecs e.
+  Proof. intros H. unfold entry_attrs, narrowed. rewrite H. reflexivity. Qed.
+
+  Lemma entry_attrs_grants_lf x e n :
+    ec_only_required e = false \/ label_first_names x = required_names x ->
+    (In n (entry_attrs (label_first_names x) (f_ecs x) e) <-> grants x e n).
+  Proof.
+    intros [H|H].
+    - rewrite (entry_attrs_rn _ (required_names x) _ _ H). apply entry_attrs_grants.
+    - rewrite H. apply entry_attrs_grants.
+  Qed.
+
   Definition resets (rn ecs : list string) (e : ecentry) : bool :=
     negb (is_nil (entry_attrs rn ecs e)) && ec_no_agg e.
 
@@ -509,7 +530,7 @@ Section WithData.
     get_ec ectab (the_section x) ecs (f_req x) = Ok er ->
     (the_entries ectab x = [] /\ er = [])
     \/ (the_entries ectab x <> []
-        /\ er = fold_left (ec_step (required_names x) (f_ecs x)) (the_entries ectab x) []).
+        /\ er = fold_left (ec_step (label_first_names x) (f_ecs x)) (the_entries ectab x) []).
   Proof.
     intros Hecs. unfold get_ec, the_entries. destruct (the_section x) as [s|].
     2:{ intros H; inversion H. left; split; reflexivity. }
@@ -517,7 +538,7 @@ Section WithData.
     { intros H; inversion H. left; split; reflexivity. }
     fold (maps_of ectab (n0 :: names)).
     destruct (req_names (f_req x)) as [rn| |] eqn:Er; try discriminate.
-    apply req_names_ok in Er. fold (required_names x) in Er. subst rn. rewrite Hecs.
+    apply req_names_ok in Er. fold (label_first_names x) in Er. subst rn. rewrite Hecs.
     remember (maps_of ectab (n0 :: names)) as ents eqn:Em.
     intros H; inversion H; subst er. destruct ents as [|e l].
     - left. split; reflexivity.
@@ -533,13 +554,13 @@ Section WithData.
 
   (* every name that passes the entity-category stage is granted by the categories *)
   Lemma ec_stage x k us :
-    the_entries ectab x <> [] -> ~ In "" (keys (f_ident x)) ->
+    the_entries ectab x <> [] -> ~ In "" (keys (f_ident x)) -> names_agree x ->
     In (k, us) (fava rmatch (f_ident x)
-                 (Some (names_restr (fold_left (ec_step (required_names x) (f_ecs x)) (the_entries ectab x) [])))) ->
+                 (Some (names_restr (fold_left (ec_step (label_first_names x) (f_ecs x)) (the_entries ectab x) [])))) ->
     ec_name_ok ectab x k.
   Proof.
-    intros Hne Hwf Hin.
-    set (er := fold_left (ec_step (required_names x) (f_ecs x)) (the_entries ectab x) []) in *.
+    intros Hne Hwf Hag Hin.
+    set (er := fold_left (ec_step (label_first_names x) (f_ecs x)) (the_entries ectab x) []) in *.
     assert (Her : er <> []) by (apply ec_fold_nonempty; exact Hne).
     assert (Hnr : names_restr er <> []) by (destruct er; [contradiction|discriminate]).
     destruct (names_restr er) as [|p R'] eqn:En; [contradiction|].
@@ -551,8 +572,12 @@ Section WithData.
     apply ec_fold_In in Hl. destruct Hl as [Hl|[[[] _]|[pre [e [post [Ee [Hi Hn]]]]]]].
     - exfalso. apply lower_empty in Hl. subst k. apply Hwf. unfold keys. apply in_map_iff.
       exists ("", us0). split; [reflexivity|exact Hu].
-    - exists pre, e, post. split; [exact Ee|]. split; [apply entry_attrs_grants; exact Hi|].
-      intros e' He' Hna n Hg. apply entry_attrs_grants in Hg. specialize (Hn e' He'). unfold resets in Hn.
+    - assert (Hine : forall e0, In e0 (e :: post) -> In e0 (the_entries ectab x)).
+      { intros e0 H0. rewrite Ee. apply in_or_app. right. exact H0. }
+      exists pre, e, post. split; [exact Ee|].
+      split; [apply (entry_attrs_grants_lf x e (lower k) (Hag e (Hine e (or_introl eq_refl)))); exact Hi|].
+      intros e' He' Hna n Hg. apply (entry_attrs_grants_lf x e' n (Hag e' (Hine e' (or_intror He')))) in Hg.
+      specialize (Hn e' He'). unfold resets in Hn.
       rewrite Hna, andb_true_r in Hn. apply negb_false_iff in Hn. apply is_nil_true in Hn. rewrite Hn in Hg. contradiction.
   Qed.
 
@@ -614,9 +639,10 @@ Section WithData.
     ecs_of ecs = f_ecs x ->
     (fail_flag x = true -> eff_fail fo (the_section x) = true) ->
     (the_entries ectab x <> [] -> ~ In "" (keys (f_ident x))) ->
+    names_agree x ->
     pfilter_of x ecs fo = Ok r -> released_ok rmatch ectab x r.
   Proof.
-    intros Hecs Hfl Hwf. unfold pfilter_of, pfilter. rewrite applicable_the_section.
+    intros Hecs Hfl Hwf Hag. unfold pfilter_of, pfilter. rewrite applicable_the_section.
     destruct (get_ec ectab (the_section x) ecs (f_req x)) as [er| |] eqn:Eg; try discriminate.
     apply (get_ec_cases x ecs er Hecs) in Eg. rewrite get_ar_the_ar.
     destruct Eg as [[Hent ->]|[Hent ->]].
@@ -639,7 +665,7 @@ Section WithData.
       rewrite match_nonempty by (apply ec_fold_nonempty; exact Hent).
       intros H; apply Ok_inj in H; subst r. apply assemble.
       + apply fava_subset.
-      + intros _ k us Hin. eapply ec_stage; [exact Hent|apply Hwf; exact Hent|exact Hin].
+      + intros _ k us Hin. eapply ec_stage; [exact Hent|apply Hwf; exact Hent|exact Hag|exact Hin].
       + intros Hf. exfalso. apply Hf. exact Hent.
       + intros [Hf _]. apply Hf. exact Hent.
   Qed.
@@ -683,11 +709,12 @@ Section WithData.
   Lemma of_md_released_ok x req opt fo fo' r :
     (fail_flag (of_md x req opt fo') = true -> eff_fail fo (the_section (of_md x req opt fo')) = true) ->
     (the_entries ectab (of_md x req opt fo') <> [] -> ~ In "" (keys (i_ident x))) ->
+    names_agree (of_md x req opt fo') ->
     pfilter rmatch ectab (i_ident x) (i_pol x) (i_sp x) (eff_ecs (i_md x)) (eff_ra (i_md x)) req opt fo = Ok r ->
     released_ok rmatch ectab (of_md x req opt fo') r.
   Proof.
-    intros Hfl Hwf Hf. apply (pfilter_released_ok _ (eff_ecs (i_md x)) fo);
-      [apply ecs_of_md|exact Hfl|exact Hwf|exact Hf].
+    intros Hfl Hwf Hag Hf. apply (pfilter_released_ok _ (eff_ecs (i_md x)) fo);
+      [apply ecs_of_md|exact Hfl|exact Hwf|exact Hag|exact Hf].
   Qed.
 
   Lemma f_ident_flat x : f_ident (flat x) = i_ident x.
@@ -699,11 +726,27 @@ Section WithData.
     apply negb_true_iff in H. intros Hi. apply mem_In in Hi. congruence.
   Qed.
 
+  (* what the guard says: the input assumption wf, and outside the class of finding C10-F5 *)
+  Lemma guard_true x : guard ectab x = true -> wf ectab x = true /\ names_agree (flat x).
+  Proof.
+    unfold guard. intros H. apply andb_true_iff in H as [Hw H3]. split; [exact Hw|].
+    apply negb_true_iff in H3. unfold class3 in H3. apply andb_false_iff in H3 as [H3|H3].
+    - intros e He. left. destruct (ec_only_required e) eqn:Eo; [|reflexivity].
+      assert (Ht : existsb ec_only_required (the_entries ectab (flat x)) = true).
+      { apply existsb_exists. exists e. split; assumption. }
+      congruence.
+    - intros e _. right. apply negb_false_iff in H3.
+      apply (list_eqb_eq String.eqb String.eqb_eq). exact H3.
+  Qed.
+
+  Lemma guard_no_ec x : the_entries ectab (flat x) = [] -> guard ectab x = true.
+  Proof. intros He. unfold guard, wf, class3. rewrite He. reflexivity. Qed.
+
   (* the released attributes of every entry point *)
   Lemma entry_released_ok x r :
-    wf ectab x = true -> o_out (run rmatch ectab x) = Ok r -> released_ok rmatch ectab (flat x) r.
+    guard ectab x = true -> o_out (run rmatch ectab x) = Ok r -> released_ok rmatch ectab (flat x) r.
   Proof.
-    intros Hw. pose proof (wf_true x Hw) as Hwf.
+    intros Hg. destruct (guard_true x Hg) as [Hw Hag]. pose proof (wf_true x Hw) as Hwf.
     unfold run. unfold flat in *. destruct (i_entry x) as [fail req opt|req opt fo|fo|fo|be] eqn:Ee; cbn [o_out].
     - (* filter_on_attributes *)
       intros Hf.
@@ -720,21 +763,21 @@ Section WithData.
       + intros Hc. exfalso. apply Hc; exact Hent.
       + intros _ _. exact H2.
       + exact H3.
-    - intros Hf. apply (of_md_released_ok x req opt fo fo r); [intros H; exact H|exact Hwf|exact Hf].
-    - intros Hf. apply (of_md_released_ok x _ _ fo fo r); [intros H; exact H|exact Hwf|exact Hf].
-    - intros Hf. apply (of_md_released_ok x _ _ fo fo r); [intros H; exact H|exact Hwf|exact Hf].
+    - intros Hf. apply (of_md_released_ok x req opt fo fo r); [intros H; exact H|exact Hwf|exact Hag|exact Hf].
+    - intros Hf. apply (of_md_released_ok x _ _ fo fo r); [intros H; exact H|exact Hwf|exact Hag|exact Hf].
+    - intros Hf. apply (of_md_released_ok x _ _ fo fo r); [intros H; exact H|exact Hwf|exact Hag|exact Hf].
     - (* Server: the first pass, or (best effort) the second pass with fail_on_missing=False *)
       intros Hf. unfold authn_response, setup_assertion in Hf.
       destruct (restrict rmatch ectab (i_ident x) (i_pol x) (i_sp x) (i_md x) None) as [out| |] eqn:Er; try discriminate.
       + inversion Hf; subst r.
         eapply released_ok_mono; [|intros e; apply self_after_In].
-        apply (of_md_released_ok x _ _ None _ out); [|exact Hwf|exact Er].
+        apply (of_md_released_ok x _ _ None _ out); [|exact Hwf|exact Hag|exact Er].
         destruct be; [intros H; cbn in H; discriminate H|intros H; exact H].
       + destruct be; [|discriminate].
         destruct (restrict rmatch ectab (i_ident x) (i_pol x) (i_sp x) (i_md x) (Some false)) as [out| |] eqn:Er2; try discriminate.
         inversion Hf; subst r.
         eapply released_ok_mono; [|intros e; apply self_after_In].
-        apply (of_md_released_ok x _ _ (Some false) _ out); [|exact Hwf|exact Er2].
+        apply (of_md_released_ok x _ _ (Some false) _ out); [|exact Hwf|exact Hag|exact Er2].
         intros H; cbn in H; discriminate H.
   Qed.
 
@@ -748,10 +791,11 @@ Section WithData.
   Proof. unfold run. destruct (i_entry x); cbn; auto. Qed.
 
   (* main theorem: the model satisfies the property, for every identity, policy, requester
-     metadata, regex matcher, category table and entry point (guard = the input assumption wf) *)
+     metadata, regex matcher, category table and entry point (guard = the input assumption wf, outside
+     the class of the open finding C10-F5) *)
   Lemma run_spec x : guard ectab x = true -> spec rmatch ectab (flat x) (run rmatch ectab x).
   Proof.
-    unfold guard. intros Hw. unfold spec. split; [rewrite caller_unchanged, f_ident_flat; reflexivity|].
+    intros Hw. unfold spec. split; [rewrite caller_unchanged, f_ident_flat; reflexivity|].
     destruct (o_out (run rmatch ectab x)) as [r| |] eqn:Eo; [|exact I|exact I].
     assert (Hr : released_ok rmatch ectab (flat x) r).
     { apply entry_released_ok; [exact Hw|exact Eo]. }
@@ -786,7 +830,7 @@ Section WithData.
     assert (Hent : the_entries ectab (flat x) = []).
     { destruct (the_entries ectab (flat x)) eqn:E; [reflexivity|]. exfalso. apply Hnf. unfold ec_in_force. rewrite E. discriminate. }
     assert (Hr : released_ok rmatch ectab (flat x) r).
-    { apply entry_released_ok; [|exact Ho]. unfold wf. rewrite Hent. reflexivity. }
+    { apply entry_released_ok; [|exact Ho]. apply guard_no_ec. exact Hent. }
     destruct Hr as [_ [_ Hn]]. exact (Hn Hmf).
   Qed.
 
@@ -1034,13 +1078,13 @@ Section Corollaries.
     intros Hg Ho. destruct (run_spec rmatch ectab x Hg) as [_ H]. rewrite Ho in H. destruct H as [[_ [H _]] _]. exact H.
   Qed.
 
-  Lemma policy_level_holds x : (forall be, i_entry x <> EServer be) -> wf ectab x = true ->
+  Lemma policy_level_holds x : (forall be, i_entry x <> EServer be) -> guard ectab x = true ->
     spec rmatch ectab (flat x) (run rmatch ectab x).
   Proof. intros _ Hw. apply run_spec. exact Hw. Qed.
 
   (* without entity categories in force there is no input assumption at all *)
   Lemma no_ec_holds x : the_entries ectab (flat x) = [] -> spec rmatch ectab (flat x) (run rmatch ectab x).
-  Proof. intros He. apply run_spec. unfold guard, wf. rewrite He. reflexivity. Qed.
+  Proof. intros He. apply run_spec. apply guard_no_ec. exact He. Qed.
 
   (* ---- the life of one Policy object: every call of every life satisfies the property against the
      requester as described at the time of that call; what a call releases does not depend on the
@@ -1388,3 +1432,99 @@ Proof.
   exists (w_sid_md (Some "false")), w_sid_opt. vm_compute. split; [left; reflexivity|].
   split; [intros H; exact H|left; reflexivity].
 Qed.
+
+(* ---- round 6: what a RequestedAttribute DECLARES is Name + NameFormat; its FriendlyName is a label.
+   (a) when the attribute maps know the Name, only the mapped local name and the Name itself designate an identity
+       attribute - the label designates nothing;
+   (b) the code's matching (filter_on_attributes._match_attr_name: get_local_name(..) or friendly_name) picks only
+       designated identity attributes (match_attr_name_sound above, used by every theorem about the declaration);
+   (c) a matching that reads the label FIRST (friendly_name or get_local_name(..)) picks an attribute the requester
+       never declared, and lets a REQUIRED attribute the user lacks pass as supplied;
+   (d) Policy.get_entity_categories DOES read the label first (ONLY_REQUIRED categories): finding C10-F5 - the
+       faithful model fails the property on such a requester, and `guard` excludes exactly that class. *)
+Lemma label_designates_nothing d l k :
+  resolved d = Some l -> designates d k -> lower k = lower l \/ lower k = lower (ra_name d).
+Proof.
+  unfold designates, designators. intros Hr [n [Hin He]]. rewrite Hr in Hin.
+  destruct Hin as [<-|[<-|[]]]; [left|right]; symmetry; exact He.
+Qed.
+
+Lemma unresolved_label_designates d f :
+  resolved d = None -> ra_friendly d = Some f -> designates d f.
+Proof.
+  intros Hr Hf. exists f. split; [|reflexivity]. unfold designators. rewrite Hr, Hf. left. reflexivity.
+Qed.
+
+(* the seeded change C10-b: friendly_name or get_local_name(acs, name, name_format) or "" *)
+Definition local_name_label_first (d : reqattr) : string :=
+  match tr (ra_friendly d) with
+  | Some f => f
+  | None => match tr (ra_loc_l d) with Some l => l | None => "" end
+  end.
+Definition match_attr_name_label_first (d : reqattr) (a : ava) : option string :=
+  tr (or_ (match_ (local_name_label_first d) a) (match_ (lower (ra_name d)) a)).
+
+(* urn:oid:2.5.4.42 = givenName, labelled "norEduPersonNIN" *)
+Definition w_gn_as_nin : reqattr :=
+  {| ra_name := "urn:oid:2.5.4.42"; ra_nf := Some URIf; ra_friendly := Some "norEduPersonNIN";
+     ra_values := []; ra_loc_l := Some "givenName"; ra_loc_r := Some "givenName" |}.
+Definition w_nin_ident : ava := [("mail", VL ["ann@example.org"]); ("norEduPersonNIN", VL ["197001011234"])].
+
+Lemma label_first_match_refuted : exists d a fn,
+  match_attr_name_label_first d a = Some fn /\ ~ designates d fn /\ match_attr_name d a = None.
+Proof.
+  exists w_gn_as_nin, w_nin_ident, "norEduPersonNIN". split; [vm_compute; reflexivity|]. split; [|vm_compute; reflexivity].
+  intros H. apply designates_b_iff in H. vm_compute in H. discriminate.
+Qed.
+
+(* the same requester through the code as it is: the user lacks givenName = the required attribute cannot be
+   supplied = an error at every entry point; a user who holds both gets givenName, never the number *)
+Definition w_label_md : mdinfo :=
+  {| md_ras := [(w_mail, Some "false"); (w_gn_as_nin, Some "true")]; md_sid := None; md_sid_loc := (None, None);
+     md_ecs := []; md_ra := None |}.
+Definition w_label_input (ident : ava) (e : entry) : input :=
+  {| i_ident := ident; i_pol := None; i_sp := "https://sp.example.org/sp.xml"; i_md := Some w_label_md; i_entry := e |}.
+
+Example w_label_is_not_a_declaration :
+  forall e, In e [ERestrict None; EApply None; EServer false] ->
+    must_fail_b [] (flat (w_label_input w_nin_ident e)) = true
+    /\ o_out (run no_rx [] (w_label_input w_nin_ident e)) = Missing
+    /\ o_out (run no_rx [] (w_label_input (("givenName", VL ["Ann"]) :: w_nin_ident) e))
+       = Ok [("givenName", VL ["Ann"]); ("mail", VL ["ann@example.org"])].
+Proof.
+  intros e He. cbn [In] in He. destruct He as [<-|[<-|[<-|[]]]]; vm_compute; repeat split; reflexivity.
+Qed.
+
+(* finding C10-F5 (OPEN): an ONLY_REQUIRED category (GEANT CoCo's shape); the requester REQUIRES urn:oid:2.5.4.3 = cn
+   and labels it "mail": Policy.get_entity_categories reads the label first and the user's mail is released, which
+   the requester never declared as required *)
+Definition w_cn_as_mail : reqattr :=
+  {| ra_name := "urn:oid:2.5.4.3"; ra_nf := Some URIf; ra_friendly := Some "mail";
+     ra_values := []; ra_loc_l := Some "cn"; ra_loc_r := Some "cn" |}.
+Definition w_tab_coco : list (string * ecmap) :=
+  [("coco", [{| ec_key := KS "http://ec/coco"; ec_attrs := ["mail"; "cn"; "displayName"];
+               ec_only_required := true; ec_no_agg := false |}])].
+Definition witness3 : input :=
+  {| i_ident := [("cn", VL ["Ann Lee"]); ("mail", VL ["ann@example.org"]); ("displayName", VL ["Ann"])];
+     i_pol := w_life_pol; i_sp := "https://sp.example.org/sp.xml";
+     i_md := w_life_md [(w_cn_as_mail, Some "true")] ["http://ec/coco"]; i_entry := ERestrict None |}.
+
+Example witness3_releases_the_labelled : o_out (run no_rx w_tab_coco witness3) = Ok [("mail", VL ["ann@example.org"])].
+Proof. vm_compute. reflexivity. Qed.
+
+Lemma label_first_categories_refuted : exists rmatch ectab x,
+  wf ectab x = true /\ class3 ectab x = true /\ ~ spec rmatch ectab (flat x) (run rmatch ectab x).
+Proof.
+  exists no_rx, w_tab_coco, witness3. split; [vm_compute; reflexivity|]. split; [vm_compute; reflexivity|].
+  intros H. apply spec_b_iff in H. vm_compute in H. discriminate.
+Qed.
+
+(* the guard is not vacuous next to the finding: the same requester with the agreeing label is inside it *)
+Example witness3_agreeing_label_guarded :
+  let x := {| i_ident := i_ident witness3; i_pol := w_life_pol; i_sp := i_sp witness3;
+              i_md := w_life_md [({| ra_name := "urn:oid:2.5.4.3"; ra_nf := Some URIf; ra_friendly := Some "CN";
+                                     ra_values := []; ra_loc_l := Some "cn"; ra_loc_r := Some "cn" |}, Some "true")]
+                                ["http://ec/coco"];
+              i_entry := ERestrict None |} in
+  guard w_tab_coco x = true /\ o_out (run no_rx w_tab_coco x) = Ok [("cn", VL ["Ann Lee"])].
+Proof. vm_compute. split; reflexivity. Qed.
